@@ -3,13 +3,13 @@ add("C10", "explicit-state enumeration of all 2^24 oscillator phases on the real
     "Trusted: the harness's f64 reference formulas; phase is read back from the public up-saw output. x86-64 only.", "4 (LFO)")
 add("C11", "exhaustive input enumeration (2^32 f32 patterns) + bounded-depth state exploration of the real code",
     "set_phase over all 2^32 bit patterns (thorough; every 16th + boundary neighbourhoods quick), one-tick advance over a frequency x sample-rate grid, and BFS over tick/set_frequency/set_phase/reset histories with a per-tick oracle.",
-    "Frequencies are a grid (200001 per rate x 8 rates), not all f32 pairs; histories depth-bounded.", "4 (LFO)")
+    "Frequencies are a grid (200001 per rate x 14 rates incl. non-integer ones) plus every integer sample rate x 5 frequencies, not all f32 pairs; histories depth-bounded.", "4 (LFO)")
 add("C12", "explicit-state enumeration of all 2^24 adjacent phase pairs on the real code",
     "All 2^24 (phase, phase+1) pairs including the wrap, then all start phases for a menu of larger increments, compared against the slope bound of the statement.",
-    "Larger increments are a menu of 9 values (thorough), not all 2^24.", "4 (LFO)")
+    "Larger increments are a menu of ~85 values (around every power of two), not all 2^24.", "4 (LFO)")
 add("C01", "complete phase walks (2^24 positions per phase) + bounded-depth BFS of event histories on the real code",
     "Every tick of complete walks through attack, decay and release for 14 start/sustain levels (thorough: every one of the 2^24 accumulator positions per phase at the smallest in-range increment; quick: complete walks at 10 increments) and every transition of a bounded-depth BFS over gate/tick/set_input histories is judged for range, exact end levels, monotonicity between events and 0.5% fidelity to the documented RC curve.",
-    "Sample rates, times and levels are menus, not all f32 combinations; histories depth-bounded (9/13 operations with 19 operations, 16/22 with 7). Phase position via the verif_phase_bits hook.", "4 (ADSR)")
+    "Sample rates, times and levels are menus, not all f32 combinations; histories depth-bounded (10/14 operations with 19 operations, 18/26 with 7); mid-phase events on a lattice of 16/48 positions. Phase position via the verif_phase_bits hook.", "4 (ADSR)")
 add("C02", "exhaustive configuration sweep (every integer sample rate) + bounded-depth BFS against a reference state machine",
     "Every integer sample rate in [100, 192000] (quick: every 7th) x 7 times incl. sub-sample products, plus a 19 x 24 named grid with clamped/NaN/inf times, each run through all three timed phases with a watchdog against the statement's duration bounds; BFS over event histories against a five-state reference machine that accumulates per-tick ideal progress (mid-phase time changes).",
     "Times are a menu per rate; histories depth-bounded. Phase read via the verif_state hook (cross-checked by plateau levels in C01).", "4 (ADSR)")
@@ -18,7 +18,7 @@ add("C03", "complete phase walks (all adjacent accumulator positions) + bounded-
     "As C01.", "4 (ADSR)")
 add("C04", "explicit-state BFS to fixpoint over message histories of the real receiver vs reference model",
     "BFS to fixpoint (no depth cap) over note-on / both note-off spellings / All-Notes-Off / foreign-channel / priority / retrigger operations with up to K outstanding notes (K=4..32 by alphabet), each message delivered byte by byte to the real receiver; gate, note and velocity compared with a Vec-of-outstanding-notes model after every message; stateright re-explores the same machine in the thorough tier.",
-    "Note alphabets of 1-4 note numbers; the 32-note capacity reached with one note number.", "4 (MIDI)")
+    "BFS note alphabets of 1-4 note numbers (32 outstanding notes reached with two); all 128x128 note pairs only through one fixed 8-message script.", "4 (MIDI)")
 add("C05", "explicit-state BFS to fixpoint with edge polls as operations",
     "As C04 plus rising_gate()/falling_gate() as ordinary operations, so polls occur at every position of every history; each poll result must equal a reference latch.",
     "As C04.", "4 (MIDI)")
@@ -45,7 +45,7 @@ add("C14", "exhaustive sweep of a sample-rate x time plane + all short set_time 
     "Geometric time grid (x1.5), not all times.", "4 (Glide)")
 add("C15", "explicit-state BFS to fixpoint over sample/poll histories at six buffer capacities",
     "BFS to fixpoint on the real controller (rebuilt from its history for every successor) with in-range, out-of-range and near-boundary samples and both edge polls as operations, against a run-length model calibrated on a fresh controller; up to 2-3 reported presses per history; stateright cross-check.",
-    "Six instantiated capacities (2..171); one in-range level at the larger ones.", "4 (Ribbon)")
+    "Six instantiated capacities (2..171); one in-range level at the larger ones; settling / allowance counts for all integer rates only through the snapshot hook.", "4 (Ribbon)")
 add("C16", "explicit-state BFS with full buffer contents in the state + differential fresh-controller oracle",
     "BFS over 2-3 in-range levels with buffer contents in the key (fixpoint at capacities 2, 6, 9; bounded at 18): on every pressed state value() is compared with the f64 corrected mean, with min/max, with a fresh real controller fed only the contributing samples (bit-exact), and for monotonicity in each contributor; unchanged while lifted.",
     "Levels are 2-3 values; three resistor triples.", "4 (Ribbon)")
